@@ -27,7 +27,7 @@ import (
 type c18kKind struct {
 	name   string
 	add    func(s *Server, n string)
-	remove func(s *Server, n string)
+	remove func(s *Server, ns ...string) // one call of the SDK's Remove... with all the names
 	list   func(ctx context.Context, cs *ClientSession) ([]string, error)
 	note   string // which handler must fire
 }
@@ -38,7 +38,7 @@ func c18kKinds() []c18kKind {
 			add: func(s *Server, n string) {
 				s.AddTool(&Tool{Name: n, InputSchema: map[string]any{"type": "object"}}, func(context.Context, *CallToolRequest) (*CallToolResult, error) { return &CallToolResult{}, nil })
 			},
-			remove: func(s *Server, n string) { s.RemoveTools(n) },
+			remove: func(s *Server, ns ...string) { s.RemoveTools(ns...) },
 			list: func(ctx context.Context, cs *ClientSession) ([]string, error) {
 				r, err := cs.ListTools(ctx, nil)
 				if err != nil {
@@ -54,7 +54,7 @@ func c18kKinds() []c18kKind {
 			add: func(s *Server, n string) {
 				s.AddPrompt(&Prompt{Name: n}, func(context.Context, *GetPromptRequest) (*GetPromptResult, error) { return &GetPromptResult{}, nil })
 			},
-			remove: func(s *Server, n string) { s.RemovePrompts(n) },
+			remove: func(s *Server, ns ...string) { s.RemovePrompts(ns...) },
 			list: func(ctx context.Context, cs *ClientSession) ([]string, error) {
 				r, err := cs.ListPrompts(ctx, nil)
 				if err != nil {
@@ -72,7 +72,13 @@ func c18kKinds() []c18kKind {
 					return &ReadResourceResult{Contents: []*ResourceContents{{URI: "file:///" + n, Text: n}}}, nil
 				})
 			},
-			remove: func(s *Server, n string) { s.RemoveResources("file:///" + n) },
+			remove: func(s *Server, ns ...string) {
+				var uris []string
+				for _, n := range ns {
+					uris = append(uris, "file:///"+n)
+				}
+				s.RemoveResources(uris...)
+			},
 			list: func(ctx context.Context, cs *ClientSession) ([]string, error) {
 				r, err := cs.ListResources(ctx, nil)
 				if err != nil {
@@ -90,7 +96,13 @@ func c18kKinds() []c18kKind {
 					return &ReadResourceResult{}, nil
 				})
 			},
-			remove: func(s *Server, n string) { s.RemoveResourceTemplates("tmpl:///" + n + "/{x}") },
+			remove: func(s *Server, ns ...string) {
+				var uris []string
+				for _, n := range ns {
+					uris = append(uris, "tmpl:///"+n+"/{x}")
+				}
+				s.RemoveResourceTemplates(uris...)
+			},
 			list: func(ctx context.Context, cs *ClientSession) ([]string, error) {
 				r, err := cs.ListResourceTemplates(ctx, nil)
 				if err != nil {
@@ -201,7 +213,9 @@ func c18kListCase(k c18kKind, version string, ttl int) (obs, sig, msg string) {
 	if o, sg, m := check("initially"); sg != "" {
 		return o, sg, m
 	}
-	for _, step := range []string{"add x", "remove base", "add y"} {
+	// removals come singly and in batches that also name something absent (before or after the item
+	// that exists) or the same item twice: the batch changed the list, whatever its last name did
+	for _, step := range []string{"add x", "remove base", "add y", "remove x+absent", "add z", "remove absent+y", "add w", "remove w+w", "remove z+absent+absent2"} {
 		before := count()
 		switch step {
 		case "add x":
@@ -213,6 +227,14 @@ func c18kListCase(k c18kKind, version string, ttl int) (obs, sig, msg string) {
 		case "add y":
 			k.add(s, "y")
 			want = append(want, "y")
+		case "add z", "add w":
+			n := strings.TrimPrefix(step, "add ")
+			k.add(s, n)
+			want = append(want, n)
+		default:
+			names := strings.Split(strings.TrimPrefix(step, "remove "), "+")
+			k.remove(s, names...)
+			want = slices.DeleteFunc(want, func(s string) bool { return slices.Contains(names, s) })
 		}
 		sort.Strings(want)
 		time.Sleep(time.Second) // the debounce delay passes
